@@ -29,6 +29,10 @@ UNITS = {
                files=['searchlite-core/src/query/sort.rs'],
                bounded={'k9_pick_numeric_i64_len0': 'list length 0', 'k9_pick_numeric_i64_len1': 'list length 1', 'k9_pick_numeric_i64_len3': 'list length 3 (i64 values)'},
                assumes=[]),
+    'K10': dict(crate='searchlite-core', prefixes=['k10_'], title='exact-mode percentile (query/aggs/mod.rs QuantileState::percentile): no out-of-bounds index for any requested percent',
+               files=['searchlite-core/src/query/aggs/mod.rs'],
+               bounded={'k10_percentile_exact_len0': 'no values', 'k10_percentile_exact_len1': 'one value', 'k10_percentile_exact_len2': 'two finite values (any percent bit pattern)'},
+               assumes=['values are finite floats; the t-digest path (more than 256 values) is not harnessed']),
     'K5': dict(crate='searchlite-ffi', prefixes=['k5_'], title='tail of searchlite_search: output-buffer guard, bounded copy, NUL terminator',
                files=['searchlite-ffi/src/lib.rs'],
                bounded={'k5_copy_stays_in_buffer': 'response length <= N and buf_cap <= N+2 with N = 32 in the quick tier, N = 256 in the thorough tier (all byte values)'},
